@@ -28,7 +28,8 @@ def _root_.GmQuic.Cost.EK.wire (k : EK) : Option Nat :=
 
 /-- what the (fixed) handlers answer in each situation of the RFC table; each line is a theorem above:
 `ack_negative_rejected`, `ack_unsent_rejected`, `stream_limit_rejected`, `flow_control_rejected` /
-`stream_err_kind_faithful`, `stream_state_rejected`, `cid_limit_rejected` (+ C14 `remote_limit_enforced`),
+`stream_err_kind_faithful`, `stream_state_rejected`, `cid_count_exceeded_rejected` / `cid_limit_rejected` / `new_cid_err_kind`
+(+ C14 `remote_limit_enforced .exact`),
 `cid_far_ahead_rejected`, `retire_unissued_rejected`, `set_limit_below_2_rejected`. -/
 def answered : Situation → EK
   | .ackRangeNegative => .frameEncoding
@@ -50,9 +51,10 @@ theorem error_kind_is_prescribed (s : Situation) : (answered s).wire = some (pre
 theorem answered_is_returned :
     (∀ (s : AckSt) f, Negative f → (handleAck s f).1.isErr = some (answered .ackRangeNegative)) ∧
     (∀ (s : AckSt) f, ¬ Negative f → s.sj.largest ≤ f.largest → (handleAck s f).1.isErr = some (answered .ackOfUnsent)) ∧
-    (∀ (s : Cid.Remote) seq rpt cid, seq - rpt > s.limit →
+    (∀ (s s2 : Cid.Remote) seq rpt cid, s.coff ≤ seq → ¬ seq - (s.coff + s.cdq.length) > max maxSeqGap s.limit →
+        (s.insertCid seq cid).1.retirePriorTo rpt = .ok s2 → s2.activeCount > s2.limit →
         (handleNewCid true s seq rpt cid).1.isErr = some (answered .cidLimitExceeded)) ∧
-    (∀ (s : Cid.Remote) seq rpt cid, ¬ seq - rpt > s.limit → seq - (s.coff + s.cdq.length) > max maxSeqGap s.limit →
+    (∀ (s : Cid.Remote) seq rpt cid, seq - (s.coff + s.cdq.length) > max maxSeqGap s.limit →
         (handleNewCid true s seq rpt cid).1.isErr = some (answered .cidSeqFarAhead)) ∧
     (∀ (l : Cid.Local) seq c, l.largest ≤ seq → (handleRetireCid l seq c).1.isErr = some (answered .retireUnissued)) ∧
     (∀ (l : Cid.Local) next n, l.limit = none → n < 2 →
@@ -62,8 +64,8 @@ theorem answered_is_returned :
   refine ⟨?_, ?_, ?_, ?_, ?_, ?_, ?_⟩
   · intro s f h; rw [ack_negative_rejected s f h]; rfl
   · intro s f h1 h2; exact ack_unsent_rejected s f h1 h2
-  · intro s seq rpt cid h; rw [cid_limit_rejected true s seq rpt cid h]; rfl
-  · intro s seq rpt cid h1 h2; rw [cid_far_ahead_rejected s seq rpt cid h1 h2]; rfl
+  · intro s s2 seq rpt cid h1 h2 h3 h4; exact cid_count_exceeded_rejected s s2 seq rpt cid h1 h2 h3 h4
+  · intro s seq rpt cid h2; rw [cid_far_ahead_rejected s seq rpt cid h2]; rfl
   · intro l seq c h; rw [retire_unissued_rejected l seq c h]; rfl
   · intro l next n h0 h; rw [set_limit_below_2_rejected true l next n h0 h]; rfl
   · intro s n hp h64 h; rw [flow_control_rejected s n hp h64 h]; rfl
